@@ -29,6 +29,7 @@ type HarnessCfg struct {
 	What     string         `json:"what,omitempty"`
 	Optional []string       `json:"optional_labels,omitempty"`       // labels unreachable with this harness configuration
 	OptionalQuick []string  `json:"optional_labels_quick,omitempty"` // labels that need the thorough bounds to be reachable
+	OptionalThorough []string `json:"optional_labels_thorough,omitempty"` // labels the thorough configuration cannot reach
 }
 
 type UnitCfg struct {
@@ -247,6 +248,7 @@ func cmdCheck(args []string) int {
 			ec := exploreCfg(u, h, params, *workers)
 			if seed%2 == 1 && ec.MapOrder == "" {
 				ec.MapOrder = "reverse" // VERIF_SEED permutes map iteration order
+				h.MapOrder = "reverse"  // (recorded in the replay file)
 			}
 			expect := prog.HarnessLabels(ec.HarnessPkg, h.Fn)
 			res, err := prog.Explore(ec)
@@ -286,7 +288,7 @@ func cmdCheck(args []string) int {
 			if len(res.Problems) == 0 && res.Exhausted {
 				var missing []string
 				for _, l := range expect {
-					if (*tier == "quick" && contains(h.OptionalQuick, l)) || contains(h.Optional, l) {
+					if (*tier == "quick" && contains(h.OptionalQuick, l)) || (*tier == "thorough" && contains(h.OptionalThorough, l)) || contains(h.Optional, l) {
 						continue
 					}
 					if res.AssertHit[l] == 0 && res.Reached[l] == 0 {
